@@ -244,7 +244,7 @@ func (e *testEnv) kindOf(rs reqSpec, v *respView) string {
 		return "notReady"
 	case strings.HasPrefix(v.Body, "User-agent"):
 		return "robots"
-	case strings.HasPrefix(rs.Target, e.opts.ProxyPrefix+"/static/"):
+	case strings.HasPrefix(e.deployTarget(rs.Target), e.opts.ProxyPrefix+"/static/"):
 		return "static"
 	}
 	return fmt.Sprintf("unknown(%d)", v.Status)
